@@ -45,6 +45,9 @@ use fx::rates::{FXRate, FXRates};
 
 // pub mod scheduling;
 
+#[cfg(feature = "verif")]
+pub mod verif;
+
 #[pymodule]
 fn rs(m: &Bound<'_, PyModule>) -> PyResult<()> {
     // JSON
